@@ -2,6 +2,8 @@
 """Run the checks against a behaviour-preserving refactoring written by a sub-agent (false-alarm test).
 usage: tools/benign.py PROP N [NAME] ; inputs in /tmp/wt/PROP.out/refactorN.diff, whyN.md; worktree /tmp/wt/PROP"""
 import json, os, shutil, subprocess, sys, time
+
+os.environ["VERIF_EVIDENCE_DIR"] = "/tmp/verif-evidence-scratch"  # runs on modified trees must not rewrite /verif/evidence
 ENV = dict(os.environ, GOFLAGS="-mod=mod", GOPROXY="off", GOSUMDB="off")
 def sh(cmd, cwd=None, env=ENV):
     p = subprocess.run(cmd, shell=True, cwd=cwd, env=env, stdout=subprocess.PIPE, stderr=subprocess.STDOUT, text=True, errors="replace")
